@@ -225,6 +225,13 @@ impl<'a> RLexer<'a> {
                             self.match_start = self.pos;
                             return (Step { events, item: Item::Custom(1000 + id as u32, s), probe: Some(self.probe()) }, info);
                         }
+                        d if named && matches!(kind, Kind::Fallible(_)) && d >= 200 && d < 240 => {
+                            let k = (d - 200) as usize;
+                            self.rs = if k < nsets { k } else { 0 };
+                            let s = loc_at(&self.input, self.match_start);
+                            self.match_start = self.pos;
+                            return (Step { events, item: Item::Custom(1000 + id as u32, s), probe: Some(self.probe()) }, info);
+                        }
                         d if scripted && named && d >= 3 && d < 200 && d % 2 == 1 => {
                             let k = ((d - 3) / 2) as usize;
                             self.rs = if k < nsets { k } else { 0 };
